@@ -88,11 +88,18 @@ func (g *Global) String() string {
 
 // Type returns the type of the global variable.
 func (g *Global) Type() types.Type {
-	// Cache type if not present (or computed before the address space was
-	// set).
-	if g.Typ == nil || g.Typ.AddrSpace != g.AddrSpace {
+	// Cache type if not present.
+	if g.Typ == nil {
 		g.Typ = types.NewPointer(g.ContentType)
 		g.Typ.AddrSpace = g.AddrSpace
+	}
+	if g.Typ.AddrSpace != g.AddrSpace {
+		// The type was cached before the address space was set. The cache is
+		// not rewritten here, as other goroutines may be printing (and thus
+		// reading it) at the same time; the type is computed afresh instead.
+		typ := types.NewPointer(g.ContentType)
+		typ.AddrSpace = g.AddrSpace
+		return typ
 	}
 	return g.Typ
 }
